@@ -18,6 +18,8 @@ CLAIM = dict(
           "expand_dims restores a unit-free shape and every index; every index map stays inside the source. "
           "moveaxis with one source and one destination axis (moveaxis(a, s, d) or one-element lists, negative spellings included) is proved for "
           "EVERY dimension: the library's order is NumPy's, a permutation, shape / element / in-bounds follow. "
+          "index::argsort (the insertion sort moveaxis orders the destinations with) returns, for EVERY key list, a permutation of the "
+          "positions along which the keys ascend (stability: correspondence with numpy.argsort(kind=stable) only). "
           "PARTIAL: moveaxis with axis LISTS is proved for sources of dimension <= 5 (any extents) by a kernel "
           "sweep of the finite argument space; above that lists are corresponded only. "
           "REFUTED (listed finding): a 0-d result (squeeze of an all-ones shape, reshape to ()) comes back as Nothing. "
@@ -37,13 +39,13 @@ RULE = ("all source shapes dim 1..4 extents 1..3 (quick; thorough: extents 1..4)
         "((2,3),(2,3,4),(2,3,4,5) in every arrangement): every ordered sub-list (ascending, descending, shuffled), written "
         "non-negatively / all-negatively / with mixed signs, lengths 1..dim, held in std::vector<int|size_t>, static_vector, "
         "std::array<int|size_t>, int[N], run-time tuple and tuple of constants (drivers/c03_lists.cpp); "
-        "sampled larger shapes (dim <= 5, extents <= 7); high_dim: sources of dimension 6..8 (extents 1..3) under moveaxis (single axes and lists, view and index level), swapaxes, transpose, flip; a malformed stream (spec 'unspecified', only crashes are looked at by C15). "
+        "sampled larger shapes (dim <= 5, extents <= 7); argsort: key lists of length 1..9 with ties and negative keys in 3 container kinds; high_dim: sources of dimension 6..8 (extents 1..3) under moveaxis (single axes and lists, view and index level), swapaxes, transpose, flip; a malformed stream (spec 'unspecified', only crashes are looked at by C15). "
         "non-trivial = source of dim >= 2 with some extent > 1; distinct = distinct case lines")
 THEOREM_STATUS = {
     "proved": ["C03_reshape_shape", "C03_reshape_C_order", "C03_flatten", "C03_transpose_shape", "C03_transpose_element",
                "C03_transpose_bijection", "C03_transpose_inverse", "C03_transpose_default_involutive", "C03_swapaxes",
                "C03_expand_dims", "C03_squeeze", "C03_atleast_nd", "C03_flip", "C03_flip_flip",
-               "C03_squeeze_expand_dims", "C03_index_maps_in_bounds", "C03_moveaxis_single_axis"],
+               "C03_squeeze_expand_dims", "C03_index_maps_in_bounds", "C03_moveaxis_single_axis", "C03_argsort"],
     "partial": ["C03_moveaxis_upto_dim5_partial"],
     "refuted": ["C03_zero_dim_result_refuted"]}
 ASSUMPTIONS = ["extents are positive and element counts stay below 2^64 (size_t products in shape_reshape)",
@@ -318,6 +320,12 @@ def gen_cases(rng, tier):
         for _ in range(6):
             ax = [rng.randint(-n, n - 1) for _ in range(rng.randint(1, 4))]
             add("normalize_axis", "normalize_axis S:%s %s I:%d" % (ak(), L(ax), n))
+    # ---------------- index::argsort (moveaxis orders the destinations with it): keys with ties, negative keys, lengths 0..9
+    for _ in range(400 if quick else 4000):
+        n = rng.randint(1, 9)
+        lo = rng.choice([0, 0, -3]); hi = rng.choice([2, 4, 9])
+        keys = [rng.randint(lo, hi) for _ in range(n)]
+        add("argsort", "argsort S:%s %s" % (rng.choice(["veci", "sv"] if lo < 0 else ["vec", "veci", "sv"]), L(keys)))
     # ---------------- larger shapes (boundary of the small scope)
     for _ in range(250 if quick else 2500):
         d = rng.randint(1, 5)
